@@ -67,12 +67,16 @@ func prepCase(idx int, p *Prog, origin string, ownPkgInfo bool) *progCase {
 		pc.Expect = EvalResult{Out: p.RawOut}
 		return pc
 	}
-	pc.Src = ToFolangOpts(p, PrintOpts{Suffix: pc.Suffix, MainName: "main" + pc.Suffix, OwnPkgInfo: ownPkgInfo})
+	pc.Src = ToFolangOpts(p, PrintOpts{Suffix: pc.Suffix, MainName: "main" + pc.Suffix, OwnPkgInfo: ownPkgInfo, Tiny: ownPkgInfo})
 	pc.Expect = Eval(p, 400000)
 	return pc
 }
 
 type transpileFn func(pc *progCase) (goSrc string, errMsg string)
+
+// groupTranspileFn transpiles all cases of a batch at once (process-based transpilers: several files
+// per process); it fills GoSrc / FcErr.
+type groupTranspileFn func(dir string, cases []*progCase)
 
 // fcsrvTranspiler: the hooked in-process fc with the real pkg_all.foi in front of every program.
 // The in-process server gets a package_info text holding exactly the functions of the FORMAT.md
@@ -126,6 +130,10 @@ func driverSource(cases []*progCase) string {
 
 // runBatch transpiles, builds and runs the cases in dir (created, removed afterwards unless keep).
 func runBatch(c *Ctx, dir string, cases []*progCase, tr transpileFn, keep bool, transpileOnly bool) {
+	runBatchG(c, dir, cases, tr, nil, keep, transpileOnly)
+}
+
+func runBatchG(c *Ctx, dir string, cases []*progCase, tr transpileFn, gtr groupTranspileFn, keep bool, transpileOnly bool) {
 	os.MkdirAll(dir, 0o755)
 	if !keep {
 		defer os.RemoveAll(dir)
@@ -135,18 +143,25 @@ func runBatch(c *Ctx, dir string, cases []*progCase, tr transpileFn, keep bool, 
 		runRaw(c, dir, cases[0], tr)
 		return
 	}
+	os.MkdirAll(dir, 0o755)
 	t0 := time.Now()
 	lap := func(name string) {
 		c.CountN("ms_"+name, int(time.Since(t0).Milliseconds()))
 		t0 = time.Now()
 	}
-	Parallel(len(cases), func(i int) {
-		pc := cases[i]
-		pc.GoSrc, pc.FcErr = tr(pc)
+	if gtr != nil {
+		gtr(dir, cases)
+	} else {
+		Parallel(len(cases), func(i int) {
+			pc := cases[i]
+			pc.GoSrc, pc.FcErr = tr(pc)
+		})
+	}
+	for _, pc := range cases {
 		if pc.FcErr == "" && strings.TrimSpace(pc.GoSrc) == "" {
 			pc.FcErr = "transpiler produced no output"
 		}
-	})
+	}
 	lap("transpile")
 	if transpileOnly {
 		return
@@ -251,7 +266,7 @@ func runBatch(c *Ctx, dir string, cases []*progCase, tr transpileFn, keep bool, 
 
 // goBuildFast: optimisations and inlining off (-N -l) for the generated package only: ~40% less compile time.
 func goBuildFast(dir string) (string, bool) {
-	r := Run(dir, 600*time.Second, 0, goEnv, "go", "build", "-gcflags=-N -l", "-o", "prog", ".")
+	r := Run(dir, 600*time.Second, 0, goEnv, "go", "build", "-gcflags=-N -l -e", "-o", "prog", ".")
 	if r.Exit != 0 {
 		return r.Stdout + r.Stderr, false
 	}
